@@ -88,6 +88,14 @@ TEXT = {
   note='Trusted: Coq kernel; the in-memory stream layer of the harness (net.Pipe) in place of TCP; the measured codec conflations treated as equal are exactly nil~empty byte slices and Entries, times compared by instant.',
   technique='Coq proof (FIFO pairing invariant; framing over an abstract prefix codec) + differential pipeline scripts on the real transport + generated-value fidelity monitors',
  ),
+ 'C17': dict(
+  level='Machine-checked theorems (Coq) over the life-cycle model of a future and the table GENERATED from the Go source on every run: for every API constructor and ANY interleaving of the call, loop steps, commits, step-downs, Shutdown() and goroutines leaving, '
+        'a future is never stranded (either the caller\'s Error() returns or a forward step is enabled - C17_never_stranded), it is resolved once the goroutines are gone (C17_resolved_after_shutdown), it takes at most 6 forward steps; the ShutdownCh escape is shown necessary for buffered queues (C17_refuted_without_shutdownch, the pinned tree\'s defect F5, repaired by a fix: commit). '
+        'C17_table_ok (every loop serves every queue and uses the future, tracked sets are flushed on step-down, enqueue selects have the shutdownCh case, buffered/FSM-bound futures carry ShutdownCh) is decided by computation on the regenerated table. '
+        'Tie: the translator (go/ast) + ~1000 (quick) real-server cells per run. PARTIAL: "within bounded time while the server runs" needs scheduler fairness and is measured (1.5 s watchdog), not proved; which error a leader returns is re-stated in the model for leaders (from the table for followers/candidates).',
+  note='Trusted: Coq kernel; the go/ast translator go/gotables (~400 lines); the cells harness. Two defects found by this check and repaired: F5 (futures without ShutdownCh) and F9 (Restore racing Shutdown panicked the process).',
+  technique='Coq proof (invariant + rank over the future life cycle; table conditions by computation) over a table translated from the Go AST + real-server API cells under a watchdog',
+ ),
  'C13': dict(
   level='Machine-checked theorems (Coq) over the model of checkLeaderLease and the lease timer arithmetic, for ANY configuration and contact times: the check steps down exactly when fewer than quorumSize voters '
         '(leader included, non-voters never counted) were heard within the lease; once too few voters answer after t0, every check after t0+lease steps down; checks are between 10 ms and one lease apart, so step-down happens within '
